@@ -382,6 +382,49 @@ Proof.
   now apply NoDup_app_l in HN.
 Qed.
 
+Lemma NoDup_app_r {X} (l1 l2 : list X) : NoDup (l1 ++ l2) -> NoDup l2.
+Proof.
+  induction l1 as [|x l1 IH]; intros H; [exact H|]. cbn [app] in H.
+  apply NoDup_cons_iff in H. now apply IH.
+Qed.
+
+Lemma NoDup_slice {X} lo hi (l : list X) : NoDup l -> NoDup (slice lo hi l).
+Proof.
+  intros H. unfold slice.
+  rewrite <- (firstn_skipn (Z.to_nat lo) l) in H. apply NoDup_app_r in H.
+  rewrite <- (firstn_skipn (Z.to_nat (hi - lo)) (skipn (Z.to_nat lo) l)) in H.
+  now apply NoDup_app_l in H.
+Qed.
+
+(* the same from any cursor position, as long as the requests do not run over the end *)
+Theorem pages_within_cycle_from reqs cur s :
+  Clean C s -> Forall req_ok reqs -> 0 < c ->
+  let p := cur_get cur K in
+  0 <= p < c -> p + zsum (map snd reqs) <= c ->
+  exists rs cur' s',
+    run_pages d reqs cur s = (rs, cur', s') /\
+    pages_of rs = map sort_abs (slice p (p + zsum (map snd reqs)) E) /\
+    NoDup (pages_of rs) /\
+    cur_get cur' K = (p + zsum (map snd reqs)) mod c.
+Proof.
+  intros Hcl Hreq Hc p Hp Hsum.
+  destruct (pages_run reqs cur s Hcl Hreq Hc Hp) as (cur' & s' & Hr & _ & Hg & _).
+  pose proof (reqs_amounts reqs Hreq) as Hks. fold p in Hr, Hg.
+  destruct (spec_pages_within _ c E Hc (map snd reqs) p Hp Hks Hsum) as [H1 H2].
+  assert (Hpg : pages_of (map (fun pg => Some (map sort_abs pg)) (spec_pages c E p (map snd reqs)))
+                = map sort_abs (slice p (p + zsum (map snd reqs)) E)).
+  { now rewrite pages_of_some, H1. }
+  eexists _, cur', s'. split; [exact Hr|]. split; [exact Hpg|]. split; [|now rewrite Hg].
+  rewrite Hpg. unfold E.
+  (* sort_abs is injective on the enumeration *)
+  pose proof (EOr_sorted_NoDup C n HWF A HA) as HNs.
+  unfold slice in *.
+  rewrite <- (firstn_skipn (Z.to_nat p) (EOr C A)), map_app in HNs. apply NoDup_app_r in HNs.
+  rewrite <- (firstn_skipn (Z.to_nat (p + zsum (map snd reqs) - p)) (skipn (Z.to_nat p) (EOr C A))),
+    map_app in HNs.
+  now apply NoDup_app_l in HNs.
+Qed.
+
 (* a full cycle: exactly the models containing A, each once; the cursor is back at 0 *)
 Theorem pages_cycle reqs cur s :
   Clean C s -> Forall req_ok reqs -> 0 < c -> cur_get cur K = 0 ->
